@@ -328,6 +328,9 @@ func hash(outer, t types.Type, x value) int {
 func load(T types.Type, addr *value) value {
 	switch T := T.Underlying().(type) {
 	case *types.Struct:
+		if m, ok := (*addr).(*xmap); ok {
+			return m // an xsync.Map held by value: the model is shared by reference (copying a used map is a bug in Go too)
+		}
 		v := (*addr).(structure)
 		a := make(structure, len(v))
 		for i := range a {
@@ -350,6 +353,14 @@ func load(T types.Type, addr *value) value {
 func store(T types.Type, addr *value, v value) {
 	switch T := T.Underlying().(type) {
 	case *types.Struct:
+		if m, ok := v.(*xmap); ok {
+			*addr = m
+			return
+		}
+		if _, ok := (*addr).(*xmap); ok {
+			*addr = v
+			return
+		}
 		lhs := (*addr).(structure)
 		rhs := v.(structure)
 		for i := range lhs {
